@@ -61,6 +61,10 @@ CHECKS["C01"] = ("E3-sysrun", "exploration",
   "Bounded-exhaustive differential check on the whole system: 7 (thorough 13) scripted module graphs x segment size x mode x (start,stop) shapes x final block x cache histories (empty, other range, dev-then-prod, another output module of the same graph, a one-field mutant of an ancestor run first on the same cache); every request's non-empty (number,id,payload) stream must equal the linear reference run of the real system and the reference interpreter. Payloads echo store reads and deltas.",
   "Schedule dimension (completion order, workers) is the C05 explorer's; goroutine timing inside a run is not controlled; programs are scripted modules, not compiled WASM.",
   "bounded exhaustive enumeration of configurations and cache histories, differential between strategies of the real system + reference interpreter", "3/C01")
+CHECKS["C07"] = ("E3-sysrun", "fault_enumeration",
+  "Exhaustive enumeration of cache states: for each (program, request shape) the universe U = files of a complete run + the partial files of each segment job run alone; all 2^n subsets of U (n <= 11 quick, <= 16 thorough, Gray-code prefix beyond) laid out as the initial cache, plus one torn .tmp leftover per file; the request is served on each by the real tier1+tier2 and its stream, and every file it leaves behind (decoded), compared with the empty-cache run.",
+  "Goroutine timing inside a run is not controlled; files do not vanish during a request; equivalence is per file name, not per set of names.",
+  "exhaustive enumeration of crash/eviction states (file subsets + torn writes) on the real implementation, differential against the clean run", "3/C07")
 PENDING = {}
 def main():
     checks = []
